@@ -26,7 +26,8 @@ ASSUMPTIONS = [
 ]
 CODES = (0x0000, 0x00FF, 0x0100, 0x1000, 0x10FF, 0x2000, 0x2FFF, 0x5000, 0x5100, 0x8130, 0xFF00, 0xFFFF)
 REGS = (0, 0x81, 0xFF)
-EVENTS = [("send", i) for i in range(len(CODES))] + [("raw", 0), ("raw", 1), ("preset",), ("creset",), ("cb",)]
+EVENTS = [("send", i) for i in range(len(CODES))] + [("raw", 0), ("raw", 1), ("preset",), ("creset",), ("cb",), ("cbn",)]
+NESTED_RESET = struct.pack("<HB5s", 0x0000, 0x00, b"\x4e\x00\x00\x00\x00")
 RAW = [struct.pack("<HB5s", 0x4210, 0x11, b"\x01\x02\x03\x04\x05"), struct.pack("<HB5s", 0x0042, 0x00, b"\xff\xfe\xfd\xfc\xfb")]
 OD = None
 
@@ -93,7 +94,26 @@ class World:
         self.ref_cb.append([])
         self.cons.add_callback(lambda e, _l=lst: _l.append((e.code, e.register, e.data, e.timestamp)))
 
-    def _ref_frame(self, code, reg, data, ts):
+    def add_nesting_cb(self):
+        """A callback that reacts to an error from inside the callback: it makes the device send an error-reset EMCY, which
+        arrives (synchronous interface) while the callback is still running."""
+        lst = []
+        self.cb_logs.append(lst)
+        self.ref_cb.append(["nesting"])
+        self.nesting = getattr(self, "nesting", 0)
+
+        def cb(e, _l=lst):
+            _l.append((e.code, e.register, e.data, e.timestamp))
+            if not R.is_reset(e.code) and not self.in_nested:
+                self.in_nested = True
+                try:
+                    self.bus.inject(0x85, NESTED_RESET, timestamp=e.timestamp + 0.5)
+                finally:
+                    self.in_nested = False
+        self.in_nested = False
+        self.cons.add_callback(cb)
+
+    def _ref_frame(self, code, reg, data, ts, nested=False):
         rec = (code, reg, data, ts)
         self.ref_log.append(rec)
         if R.is_reset(code):
@@ -101,7 +121,13 @@ class World:
         else:
             self.ref_active.append(rec)
         for l in self.ref_cb:
-            l.append(rec)
+            if l and l[0] == "nesting":
+                l.append(rec)
+                if not R.is_reset(code) and not nested:
+                    c2, r2, d2 = struct.unpack("<HB5s", NESTED_RESET)
+                    self._ref_frame(c2, r2, d2, ts + 0.5, nested=True)
+            else:
+                l.append(rec)
 
     def step(self, ev):
         k = ev[0]
@@ -129,6 +155,8 @@ class World:
             self.ref_log, self.ref_active = [], []
         elif k == "cb":
             self.add_cb()
+        elif k == "cbn":
+            self.add_nesting_cb()
 
     def compare(self):
         f = lambda lst: [(e.code, e.register, e.data, e.timestamp) for e in lst]  # noqa: E731
@@ -137,7 +165,7 @@ class World:
             v.append(("C16:log", self.ref_log[-3:], f(self.cons.log)[-3:]))
         if f(self.cons.active) != self.ref_active:
             v.append(("C16:active", self.ref_active[-3:], f(self.cons.active)[-3:]))
-        if self.cb_logs != self.ref_cb:
+        if self.cb_logs != [l[1:] if l and l[0] == "nesting" else l for l in self.ref_cb]:
             v.append(("C16:callbacks", [l[-2:] for l in self.ref_cb], [l[-2:] for l in self.cb_logs]))
         return v
 
